@@ -266,7 +266,7 @@ Definition render_callout (e : env) (c : config) (creator : text) (co : callout_
       end in
     let mru_part := match last_mru (c_subs co) with None => [] | Some m => [(L "MRU Id", js (mru_ids m))] end in
     match fru_part, pce_part with
-    | Some a, Some b => Some (fold_left (fun acc kv => obj_set acc (fst kv) (snd kv)) (a ++ b ++ mru_part) [])
+    | Some a, Some b => Some (a ++ b ++ mru_part)      (* distinct literal keys, each assigned at most once *)
     | _, _ => None
     end
   end.
